@@ -173,13 +173,17 @@ func init() {
 			if w.Thorough() {
 				level = 3
 			}
-			var i int64
+			var i, own int64
+			over := false
 			gen.AnnotatedFamily(level, func(m *gen.Model) {
 				i++
-				if !w.Mine(i) {
+				if over || !w.Mine(i) {
 					return
 				}
-				if i&0x3f == 0 && w.OverBudget() {
+				// (polled on the shard's own cases: a counter over all cases would be
+				// looked at by one shard only)
+				if own++; own&0x7 == 0 && w.OverBudget() {
+					over = true
 					return
 				}
 				base, _ := observe(modelProject(m, gen.Canonical))
